@@ -56,6 +56,6 @@ theorem published_target_is_latest_fetch {a0 : Nat} {script : List Reply} {t0 : 
 
 /-- Non-vacuity: in the example run the good fetches are 2 and 0 (1 failed), so the target holds
 fetch 2's set. -/
-example : ex2.log.filter (·.good) = [⟨1810000000000, 2, true, 7⟩, ⟨0, 0, true, 7⟩] := by decide
+example : ex2.log.filter (·.good) = [⟨1810000000000, 2, true, 7, 3600000000000⟩, ⟨0, 0, true, 7, 1800000000000⟩] := by decide
 
 end Kit.Spiffe
